@@ -28,6 +28,7 @@ def run(prog, rep, tier='quick'):
     rep.rule('burg', 'arburg is called with (X, order-1); A = insert(a, 0, 1); returned k is arburg\'s third result')
     rep.rule('hermitian', 'charge typing of the psi loop; transform input holds charge k at index k (mod NFFT)')
     rep.rule('bins', 'index map of the returned PSD: identity on the NFFT bins (for real data a slot may hold the mirror bin NFFT-j)')
+    rep.rule('admission', 'no guard on (N, order, NFFT) raises for order 2..N/2 and NFFT >= 2*order')
     rep.rule('units', 'PSD exponents: s=2, hz=+1, nfft=0; real-valued')
     rep.rule('forwarding', 'pminvar passes data/order/sampling/NFFT to minvar and stores res[1], res[2]')
     f = prog.func('minvar', 'minvar')
@@ -184,6 +185,14 @@ def run(prog, rep, tier='quick'):
             rep.proved('forwarding', cls.qname, ctx, 'data, order, sampling, NFFT forwarded; ar and reflection kept', cw)
         psd = obj.f.get(PSD_FIELD)
         check_sink(rep, 'units', cls.qname, ctx, 'psd', psd, {'s': F(2), 'hz': F(1), 'nfft': F(0)}, cw)
+    # dimension m = order in 2..N/2 with NFFT >= 2m is admitted
+    from ..d1rules import admission_of
+    seen_adm = set()
+    grid = [{'N': n_, 'Pa': p_, 'm': h_} for n_ in (8, 9, 12) for p_ in range(2, n_ // 2 + 1) for h_ in (p_, p_ + 1, p_ + 3)]
+    for par_ in ('even', 'odd'):
+        admission_of(rep, prog, 'admission', 'minvar', 'minvar',
+                     lambda: ([C.data(True, phase=False), IntV(Aff.sym('Pa'), frozenset(['order']))], {'NFFT': C.nfft(par_)}), grid,
+                     lambda w: 'N = %d, order = %d, NFFT = %d' % (w['N'], w['Pa'], 2 * w['m'] + (par_ == 'odd')), seen_adm)
     rep.floor('minvar contexts', n, 4)
     rep.floor('bin layouts', nb, 4)
     rep.floor('psi transforms', nf[0], 2)
